@@ -459,8 +459,6 @@ def judge_on_disk(old_t, new_t, leaves, absent):
             return [_v("exception", "dir_hashsums", f"dir_hashsums raised {type(e).__name__}: {e}", mode="disk")], {"nodes": 0, "gets": 0}, None
         matches_abstract = old == materialize(old_t, leaves) and new == materialize(new_t, leaves)
         viols, stats, steps = judge(prev_in, curr_in, old, new, absent)
-        for v in viols:
-            v["sig"]["mode"] = "disk"
         if not viols:
             why = detail = None
             for p, st in steps:
